@@ -41,6 +41,28 @@ _m('C17',
    'units whose names do not parse are not cross-checked.',
    'DESIGN.md §3 C17')
 
+_m('C02',
+   'typestate analysis on the statement CFG (pop -> clock -> execute), finite-domain raise-set evaluation of admission guards, taint lint for time-vs-literal comparisons, guarded-write check',
+   'Decides on every path (incl. exception edges and loop back-edges) that a popped event gets the clock set to its own '
+   'time and is executed exactly once; that the guard in front of every event-list insertion refuses exactly {past, NaN} '
+   'over the ordering domain {lt, eq, gt, unordered} (negative/NaN delays likewise); that no time value is compared with '
+   'a bare literal (Duration clocks); that every clock write is monotone; that cancel removes exactly its argument. '
+   'Together with C01 this yields exactly-once, in-order execution for every model, which a sampled test cannot cover. '
+   'Handlers\' own behaviour is not decided.',
+   'Trusts C01; user handlers are assumed to reach the simulator only through public methods; the unordered case models '
+   'float NaN.',
+   'DESIGN.md §3 C02')
+
+_m('C03',
+   'exhaustive finite-domain evaluation of the horizon predicate; constant propagation of (bound, including) per command; dominance/unreachability checks on the CFG',
+   'Decides that the stop condition of the run loop equals the specification in all 12 cases of (next time ? bound) x '
+   'including x empty, that start/run_up_to/run_up_to_including run with the right bound and inclusiveness, that ENDING '
+   'is unreachable while the clock is before the replication end (resumability), that every pop is dominated by a '
+   'horizon test, and that bounds beyond the replication end are clamped or refused. Two of these fail on the pinned tree '
+   'by design decision and are listed as known findings. Trace equality under arbitrary segmentation is not decided.',
+   'Only structural preconditions of composition are checked; pauses via stop()/start() are covered by C04 race shapes.',
+   'DESIGN.md §3 C03')
+
 
 def finalize():
     for i in range(1, 19):
